@@ -1212,4 +1212,240 @@ theorem laws_ascii : Laws Format.ascii where
     have := (Bool.and_eq_true _ _).mp this.symm
     exact ⟨Nat.le_of_lt (mem_singleByteIndices hp), this.1, this.2⟩
 
+/-! ### the model only panics where the specification does, below 2 GiB -/
+
+/-- length of the tendril in slot `i` (0 for an empty slot) -/
+def slotLen (st : St) (i : Nat) : Nat :=
+  match st.pool[i]? with
+  | some (some t) => t.len32
+  | _ => 0
+
+/-- the sizes an operation involves stay below 2^30 (so sums stay below 2^31) -/
+def Small (F : Format) (st : St) : Op → Prop
+  | .fromBytes _ bs => bs.length ≤ 1073741824
+  | .pushBytes i bs => bs.length ≤ 1073741824 ∧ slotLen st i ≤ 1073741824
+  | .pushChar i c => (∀ bs, F.encodeChar c = some bs → bs.length ≤ 1073741824) ∧ slotLen st i ≤ 1073741824
+  | .pushTendril i j => slotLen st i ≤ 1073741824 ∧ slotLen st j ≤ 1073741824
+  | .sendRoundTrip i => slotLen st i ≤ 1073741824
+  | .setByte i _ _ => slotLen st i ≤ 1073741824
+  | .reserve i n => slotLen st i ≤ 1073741824 ∧ n ≤ 1073741824
+  | .withCapacity _ n => n ≤ 1073741824
+  | _ => True
+
+theorem slotLen_eq {st : St} {i : Nat} {t : T} (hp : st.pool[i]? = some (some t)) : slotLen st i = t.len32 := by
+  simp [slotLen, hp]
+
+theorem np_store {st : St} {j : Nat} {s : T} (hj : j < st.pool.length)
+    (w : WF st.heap (s :: liveTs st.pool)) : NP (store st j s) :=
+  NP.of_satT (store_spec hj w)
+
+/-- the operations that can reach an `OFLOW` guard or a length assert -/
+def oflowOp : Op → Bool
+  | .fromBytes .. | .pushBytes .. | .pushChar .. | .pushTendril .. | .sendRoundTrip _ | .reserve ..
+  | .withCapacity .. | .setByte .. => true
+  | _ => false
+
+/-- … do not panic while the sizes are small -/
+theorem stepM_np (F : Format) (L : Laws F) (st : St) (op : Op) (hwf : StWF st) (hs : Small F st op)
+    (hop : oflowOp op = true) :
+    match stepM F st op with
+    | none => True
+    | some m => NP m := by
+  cases op with
+  | new i => simp [oflowOp] at hop
+  | tryPopFront i n => simp [oflowOp] at hop
+  | tryPopBack i n => simp [oflowOp] at hop
+  | trySubtendril i j o l => simp [oflowOp] at hop
+  | clone i j => simp [oflowOp] at hop
+  | clear i => simp [oflowOp] at hop
+  | drop i => simp [oflowOp] at hop
+  | popFrontChar i => simp [oflowOp] at hop
+  | popFrontCharRun i j k => simp [oflowOp] at hop
+  | popFront i n => simp [oflowOp] at hop
+  | popBack i n => simp [oflowOp] at hop
+  | subtendril i j o l => simp [oflowOp] at hop
+  | fromBytes i bs =>
+    by_cases hi : i < st.pool.length
+    · simp only [stepM, hi, ↓reduceIte]
+      split
+      · apply NP.bind (np_fromBytesUnchecked bs (by simp only [Small] at hs; omega))
+        rintro ⟨h1, t1⟩ he
+        obtain ⟨w1, _, _⟩ := (fromBytesUnchecked_spec bs hwf).of_ok he
+        apply NP.bind (np_store (st := ⟨h1, st.pool⟩) hi w1)
+        intro st' _; exact NP.ok
+      · exact NP.ok
+    · simp only [stepM, hi, ↓reduceIte]
+  | pushBytes i bs =>
+    cases hp : st.pool[i]? with
+    | none => simp only [stepM, hp]
+    | some o => cases o with
+      | none => simp only [stepM, hp]
+      | some t =>
+        simp only [stepM, hp]
+        simp only [Small, slotLen_eq hp] at hs
+        split
+        · apply NP.bind (np_pushBytesUnchecked L.noFixup bs (focusWF hwf hp) (by omega))
+          intro r _; exact NP.ok
+        · exact NP.ok
+  | pushChar i c =>
+    cases hp : st.pool[i]? with
+    | none => simp only [stepM, hp]
+    | some o => cases o with
+      | none => simp only [stepM, hp]
+      | some t =>
+        simp only [stepM, hp]
+        simp only [Small, slotLen_eq hp] at hs
+        cases he : F.encodeChar c with
+        | none => exact NP.ok
+        | some bs =>
+          simp only []
+          have := hs.1 bs he
+          apply NP.bind (np_pushBytesUnchecked L.noFixup bs (focusWF hwf hp) (by omega))
+          intro r _; exact NP.ok
+  | pushTendril i j =>
+    cases hp : st.pool[i]? with
+    | none => simp only [stepM, hp]
+    | some o => cases o with
+      | none => simp only [stepM, hp]
+      | some t =>
+        cases hq : st.pool[j]? with
+        | none => simp only [stepM, hp, hq]
+        | some o2 => cases o2 with
+          | none => simp only [stepM, hp, hq]
+          | some o =>
+            simp only [stepM, hp, hq]
+            simp only [Small, slotLen_eq hp, slotLen_eq hq] at hs
+            by_cases hij : i = j
+            · simp only [hij, ↓reduceIte]
+            · simp only [hij, ↓reduceIte]
+              apply NP.bind (np_pushTendril L.noFixup (focusWF hwf hp) (others_mem (Ne.symm hij) hq) (by omega))
+              intro r _; exact NP.ok
+  | sendRoundTrip i =>
+    cases hp : st.pool[i]? with
+    | none => simp only [stepM, hp]
+    | some o => cases o with
+      | none => simp only [stepM, hp]
+      | some t =>
+        simp only [stepM, hp]
+        simp only [Small, slotLen_eq hp] at hs
+        apply NP.bind (np_makeOwned (focusWF hwf hp) (by omega))
+        intro r _; exact NP.ok
+  | reserve i n =>
+    cases hp : st.pool[i]? with
+    | none => simp only [stepM, hp]
+    | some o => cases o with
+      | none => simp only [stepM, hp]
+      | some t =>
+        simp only [stepM, hp]
+        simp only [Small, slotLen_eq hp] at hs
+        apply NP.bind (np_reserveT n (focusWF hwf hp) (by omega))
+        intro r _; exact NP.ok
+  | withCapacity i n =>
+    by_cases hi : i < st.pool.length
+    · simp only [stepM, hi, ↓reduceIte]
+      simp only [Small] at hs
+      apply NP.bind (np_withCapacity n hwf (by omega))
+      rintro ⟨h1, t1⟩ he
+      obtain ⟨w1, _, _⟩ := (withCapacity_spec n hwf).of_ok he
+      apply NP.bind (np_store (st := ⟨h1, st.pool⟩) hi w1)
+      intro st' _; exact NP.ok
+    · simp only [stepM, hi, ↓reduceIte]
+  | setByte i k v =>
+    cases hp : st.pool[i]? with
+    | none => simp only [stepM, hp]
+    | some o => cases o with
+      | none => simp only [stepM, hp]
+      | some t =>
+        simp only [stepM, hp]
+        simp only [Small, slotLen_eq hp] at hs
+        have wt := focusWF hwf hp
+        apply NP.bind (np_derefMut wt (by omega))
+        rintro ⟨h1, t1⟩ he
+        obtain ⟨w1, _, _, _, hns⟩ := (derefMut_spec wt).of_ok he
+        simp only at w1 hns
+        by_cases hk : k < t1.len32
+        · simp only [hk, ↓reduceIte]
+          apply NP.bind (NP.of_satT (storeByte_spec k v w1 hns hk))
+          intro r _; exact NP.ok
+        · simp only [hk, ↓reduceIte]; exact NP.ok
+
+theorem outOfErr_ne_panic (e : Option SubErr) : outOfErr e ≠ .panic := by
+  cases e with
+  | none => simp [outOfErr]
+  | some e => cases e <;> simp [outOfErr]
+
+/-- where the specification panics it changes nothing -/
+theorem Spec.step_panic_state (F : Format) (p : APool) (op : Op) (h : (Spec.step F p op).2 = .panic) :
+    Spec.step F p op = (p, .panic) := by
+  cases op <;> simp only [Spec.step] at h ⊢ <;> (repeat' split at h) <;>
+    first
+    | (exfalso; exact outOfErr_ne_panic _ h)
+    | rfl
+    | (cases h; simp_all)
+    | (cases h)
+    | (simp at h)
+    | (simp_all)
+
+/-- **No spurious panic.**  While the tendrils and the operands involved are below 2^30 bytes, the
+model panics only where the owned-string specification panics (the `unwrap` of `pop_front`,
+`pop_back`, `subtendril` on an error, an out-of-range index store) — so below that size every
+operation refines the specification exactly. -/
+theorem C11_no_spurious_panic (F : Format) (L : Laws F) (st : St) (op : Op) (hwf : StWF st)
+    (hv : AValid F (absPool st)) (hs : Small F st op) :
+    (absPool (step F st op).1, (step F st op).2) = Spec.step F (absPool st) op := by
+  have h := stepM_spec F L st op hwf hv
+  have hn := stepM_np F L st op hwf hs
+  unfold step
+  cases hm : stepM F st op with
+  | none => rw [hm] at h; exact h.symm
+  | some m =>
+    rw [hm] at h hn
+    cases m with
+    | ok r => exact h.2
+    | error e =>
+      cases e with
+      | ub s => exact h.elim
+      | panic s =>
+        -- `h : mayPanic …`
+        have h' : mayPanic F (absPool st) op := h
+        simp only []
+        by_cases ho : oflowOp op = true
+        · exact ((hn ho) s rfl).elim
+        · cases op <;> simp only [oflowOp, mayPanic, not_true_eq_false] at ho h' <;>
+            first
+            | exact h'.elim
+            | exact (Spec.step_panic_state F _ _ h').symm
+
+/-! ## non-vacuity -/
+
+theorem init_wf (slots : Nat) : StWF (St.init slots) := by
+  show WF Heap.empty (liveTs (List.replicate slots none))
+  rw [liveTs_replicate]; exact WF.empty
+
+private def b20 : List UInt8 := [1,2,3,4,5,6,7,8,9,10,11,12,13,14,15,16,17,18,19,20]
+
+/-- two adjacent views of one buffer are merged by `push_tendril` without copying -/
+example : (run Format.bytes (St.init 4)
+    [.fromBytes 0 b20, .trySubtendril 0 1 0 10, .trySubtendril 0 2 10 10, .pushTendril 1 2]).pool
+    = [some (.shared 0 0 20), some (.shared 0 0 20), some (.shared 0 10 10), none] := by decide
+
+/-- copy on write: pushing onto a clone leaves the original alone; popping 15 of 20 bytes makes it inline -/
+example : absPool (run Format.bytes (St.init 4)
+    [.fromBytes 0 b20, .clone 0 1, .pushBytes 1 [0xff], .tryPopFront 0 15])
+    = [some [16, 17, 18, 19, 20], some (b20 ++ [0xff]), none, none] := by decide
+
+/-- checked operations on the UTF-8 string "aé" (61 c3 a9) -/
+example : (step Format.utf8 (run Format.utf8 (St.init 4) [.fromBytes 0 [0x61, 0xc3, 0xa9]])
+    (.tryPopFront 0 2)).2 = .inv := by decide
+example : (step Format.utf8 (run Format.utf8 (St.init 4) [.fromBytes 0 [0x61, 0xc3, 0xa9]])
+    (.tryPopFront 0 4)).2 = .oob := by decide
+example : (step Format.utf8 (run Format.utf8 (St.init 4) [.fromBytes 0 [0x61, 0xc3, 0xa9]])
+    (.tryPopBack 0 1)).2 = .inv := by decide
+example : (step Format.utf8 (run Format.utf8 (St.init 4) [.fromBytes 0 [0x61, 0xc3, 0xa9]])
+    (.pushBytes 0 [0xa9])).2 = .err := by decide
+example : (step Format.utf8 (run Format.utf8 (St.init 4) [.fromBytes 0 [0x61, 0xc3, 0xa9]])
+    (.popFront 0 2)).2 = .panic := by decide
+example : (step Format.utf8 (run Format.utf8 (St.init 4) [.fromBytes 0 [0x61, 0xc3, 0xa9]])
+    (.popFrontChar 0)).2 = .ch (some 0x61) := by decide
+
 end H5V.Props.C11
